@@ -348,58 +348,53 @@ func ruleAErrMap(p *Program, r *Reporter) {
 		sort.Slice(out, func(i, j int) bool { return out[i].name < out[j].name })
 		return out
 	}
-	simulate := func(steps []mapStep, concrete string) string {
-		for _, s := range steps {
-			switch s.kind {
-			case "assert":
-				if s.target == concrete {
-					return s.result
+	run := func(side string, mappers []*ssa.Function, srcs []src, expect map[string]string, dflt string) {
+		if len(mappers) == 0 {
+			r.Unknown(token.NoPos, side+" mapper", "no function of the root package receives the "+side+" error of the API functions")
+			return
+		}
+		for _, fn := range mappers {
+			fnName := fn.Name()
+			for _, s := range srcs {
+				key := side + " " + s.name
+				pub, ok := simulateMapper(fn, s.name, internalIs)
+				if !ok {
+					r.Unknown(s.pos, key, fnName+": decision chain not understood at "+pub)
+					continue
 				}
-			case "is":
-				if concrete == s.target { // the sentinel itself
-					return s.result
+				sent := pubSentinel[pub]
+				want, have := expect[s.name]
+				if !have {
+					want = dflt
 				}
-				for _, m := range internalIs[concrete] {
-					if m == s.target || m == "?" {
-						return s.result
+				if sent == "" {
+					r.Bad(s.pos, key, fmt.Sprintf("%s maps it to %s which matches no exported sentinel", fnName, pub))
+					continue
+				}
+				if sent != want {
+					r.Bad(s.pos, key, fmt.Sprintf("raised in %s; %s maps it to %s (%s) but the category for this fault is %s", s.fn, fnName, pub, sent, want))
+					continue
+				}
+				r.OK(s.pos, key, fmt.Sprintf("%s → %s → %s", fnName, pub, sent))
+			}
+			if side == "eval" {
+				// the evaluation-side mapper must not be able to produce the static categories
+				bad := ""
+				for _, ret := range returnsOf(fn) {
+					if mi, ok := ret.Results[0].(*ssa.MakeInterface); ok {
+						t := strings.TrimPrefix(typeShort(mi.X.Type()), "*jmespath.")
+						if sent := pubSentinel[t]; sent == "ErrSyntax" || sent == "ErrInvalidArity" || sent == "ErrUnknownFunction" {
+							bad = t + " (" + sent + ")"
+						}
 					}
 				}
-			case "default":
-				return s.result
+				if bad != "" {
+					r.Bad(fn.Pos(), fnName+" static categories", "an evaluation error can be reported as the static category "+bad)
+				} else {
+					r.OK(fn.Pos(), fnName+" static categories", "no return of the evaluation-side mapper yields ErrSyntax, ErrInvalidArity or ErrUnknownFunction")
+				}
 			}
 		}
-		return ""
-	}
-	run := func(fnName string, srcs []src, expect map[string]string, dflt string, side string) {
-		fd := p.FuncDecl(p.Root, "", fnName)
-		if fd == nil {
-			r.Unknown(token.NoPos, fnName, "mapping function not found in the root package")
-			return
-		}
-		steps, why := extractMapper(p.Root, fd)
-		if steps == nil {
-			r.Unknown(fd.Pos(), fnName, "decision chain not understood: "+why)
-			return
-		}
-		for _, s := range srcs {
-			key := side + " " + s.name
-			pub := simulate(steps, s.name)
-			sent := pubSentinel[pub]
-			want, ok := expect[s.name]
-			if !ok {
-				want = dflt
-			}
-			if sent == "" {
-				r.Bad(s.pos, key, fmt.Sprintf("%s maps it to %s which matches no exported sentinel", fnName, pub))
-				continue
-			}
-			if sent != want {
-				r.Bad(s.pos, key, fmt.Sprintf("raised in %s; %s maps it to %s (%s) but the category for this fault is %s", s.fn, fnName, pub, sent, want))
-				continue
-			}
-			r.OK(s.pos, key, fmt.Sprintf("%s → %s → %s", fnName, pub, sent))
-		}
-		// every expected special type must still exist as a source (otherwise the table went stale)
 		var exp []string
 		for k := range expect {
 			exp = append(exp, k)
@@ -415,20 +410,9 @@ func ruleAErrMap(p *Program, r *Reporter) {
 			}
 		}
 	}
-	run("parseError", collect(p.Lexer, p.Parser), parseCategory, "ErrSyntax", "parse")
-	evalSrcs := collect(p.Eval)
-	run("evaluateError", evalSrcs, evalCategory, "ErrEvaluationFailed", "eval")
-	// (ii) evaluateError must not be able to produce the static categories
-	if fd := p.FuncDecl(p.Root, "", "evaluateError"); fd != nil {
-		if steps, _ := extractMapper(p.Root, fd); steps != nil {
-			for _, s := range steps {
-				if sent := pubSentinel[s.result]; sent == "ErrSyntax" || sent == "ErrInvalidArity" || sent == "ErrUnknownFunction" {
-					r.Bad(s.pos, "evaluateError→"+s.result, "an evaluation error can be reported as the static category "+sent)
-				}
-			}
-			r.OK(fd.Pos(), "evaluateError static categories", "no step of evaluateError yields ErrSyntax, ErrInvalidArity or ErrUnknownFunction")
-		}
-	}
+	parseM, evalM := errorMappers(p)
+	run("parse", parseM, collect(p.Lexer, p.Parser), parseCategory, "ErrSyntax")
+	run("eval", evalM, collect(p.Eval), evalCategory, "ErrEvaluationFailed")
 	// (iii) wrappers with Unwrap may wrap only errors of library calls
 	for _, fn := range p.ReachFuncs(p.Eval, p.Parser, p.Lexer) {
 		for _, b := range fn.Blocks {
@@ -487,31 +471,6 @@ func fromLibraryCall(p *Program, v ssa.Value) bool {
 	return false
 }
 
-// ---------------------------------------------------------------- A-NIL-RESULT
-
-func ruleANilResult(p *Program, r *Reporter) {
-	for _, fn := range p.API {
-		res := fn.Signature.Results()
-		if res.Len() != 2 || !isErrorType(res.At(1).Type()) {
-			continue
-		}
-		for i, ret := range returnsOf(fn) {
-			key := fmt.Sprintf("%s return#%d", p.FuncName(fn), i+1)
-			if isNilConst(ret.Results[1]) {
-				r.Trivial(ret.Pos(), key, "success return")
-				continue
-			}
-			if isNilConst(ret.Results[0]) {
-				r.OK(ret.Pos(), key, "error return carries a nil result")
-			} else {
-				r.Bad(ret.Pos(), key, "returns a non-nil error together with result "+ret.Results[0].String())
-			}
-		}
-	}
-}
-
-// ---------------------------------------------------------------- A-API-SHAPE
-
 func findCalls(fn *ssa.Function, full string) []*ssa.Call {
 	var out []*ssa.Call
 	for _, b := range fn.Blocks {
@@ -559,194 +518,6 @@ func errEdgeDominates(b *ssa.BasicBlock, errv ssa.Value, wantNil bool) bool {
 		}
 	}
 	return false
-}
-
-func ruleAAPIShape(p *Program, r *Reporter) {
-	parseName := p.Parser.PkgPath + ".Parse"
-	evalName := p.Eval.PkgPath + ".Evaluate"
-	for _, fn := range p.API {
-		name := p.FuncName(fn)
-		isMethod := fn.Signature.Recv() != nil
-		parses := findCalls(fn, parseName)
-		evals := findCalls(fn, evalName)
-		if !isMethod {
-			// exactly one Parse call on the expression parameter, dominating every return
-			if len(parses) != 1 {
-				r.Bad(fn.Pos(), name+" Parse call", fmt.Sprintf("%d calls to parser.Parse (expected exactly one)", len(parses)))
-				continue
-			}
-			pc := parses[0]
-			if prm, ok := pc.Call.Args[0].(*ssa.Parameter); ok && prm == fn.Params[0] {
-				r.OK(pc.Pos(), name+" Parse(arg)", "parser.Parse receives the expression parameter unchanged")
-			} else {
-				r.Bad(pc.Pos(), name+" Parse(arg)", "parser.Parse does not receive the expression parameter itself: "+pc.Call.Args[0].String())
-			}
-			for i, ret := range returnsOf(fn) {
-				key := fmt.Sprintf("%s return#%d after Parse", name, i+1)
-				if pc.Block().Dominates(ret.Block()) {
-					r.OK(ret.Pos(), key, "dominated by the call to parser.Parse")
-				} else {
-					r.Bad(ret.Pos(), key, "a return is reachable without calling parser.Parse: the static checks depend on the path taken (and so possibly on the data)")
-				}
-			}
-			perr := extractOf(pc, 1)
-			pnode := extractOf(pc, 0)
-			if perr == nil {
-				r.Bad(pc.Pos(), name+" Parse error", "the error result of parser.Parse is discarded")
-				continue
-			}
-			// everything that uses the node must be under the nil edge
-			for _, ec := range evals {
-				key := name + " Evaluate under Parse success"
-				if errEdgeDominates(ec.Block(), perr, true) {
-					r.OK(ec.Pos(), key, "evaluator.Evaluate is dominated by the err == nil edge of parser.Parse")
-				} else {
-					r.Bad(ec.Pos(), key, "evaluator.Evaluate can run although parser.Parse failed")
-				}
-				if pnode == nil || ec.Call.Args[0] != pnode {
-					r.Bad(ec.Pos(), name+" Evaluate(node)", "evaluator.Evaluate does not receive the node returned by parser.Parse")
-				} else {
-					r.OK(ec.Pos(), name+" Evaluate(node)", "evaluates the node returned by parser.Parse")
-				}
-			}
-			if fn.Name() == "MustCompile" {
-				// exactly one panic, dominated by err != nil, and the err != nil edge leads only to panic
-				var panics []*ssa.Panic
-				for _, b := range fn.Blocks {
-					for _, in := range b.Instrs {
-						if pn, ok := in.(*ssa.Panic); ok {
-							panics = append(panics, pn)
-						}
-					}
-				}
-				if len(panics) != 1 {
-					r.Bad(fn.Pos(), name+" panic", fmt.Sprintf("%d panic statements (expected exactly one)", len(panics)))
-				} else if errEdgeDominates(panics[0].Block(), perr, false) {
-					r.OK(panics[0].Pos(), name+" panic", "the only panic is dominated by the err != nil edge of parser.Parse")
-				} else {
-					r.Bad(panics[0].Pos(), name+" panic", "panic is not restricted to the failure of parser.Parse")
-				}
-				for i, ret := range returnsOf(fn) {
-					key := fmt.Sprintf("%s return#%d on success only", name, i+1)
-					if errEdgeDominates(ret.Block(), perr, true) {
-						r.OK(ret.Pos(), key, "return dominated by err == nil")
-					} else {
-						r.Bad(ret.Pos(), key, "MustCompile can return although parser.Parse failed")
-					}
-				}
-			} else {
-				// error returns: through parseError(expr, perr) when Parse failed
-				for i, ret := range returnsOf(fn) {
-					if isNilConst(ret.Results[1]) {
-						continue
-					}
-					key := fmt.Sprintf("%s error-return#%d", name, i+1)
-					c, ok := ret.Results[1].(*ssa.Call)
-					cn := ""
-					if ok {
-						cn = calleeFullName(&c.Call)
-					}
-					switch {
-					case cn == p.Root.PkgPath+".parseError" && c.Call.Args[1] == perr && errEdgeDominates(ret.Block(), perr, false):
-						r.OK(ret.Pos(), key, "Parse failure routed through parseError")
-					case cn == p.Root.PkgPath+".evaluateError" && errEdgeDominates(ret.Block(), perr, true):
-						r.OK(ret.Pos(), key, "evaluation failure routed through evaluateError")
-					default:
-						r.Bad(ret.Pos(), key, "error is not routed through parseError/evaluateError on the matching edge: "+ret.Results[1].String())
-					}
-				}
-			}
-		}
-		// results of Search-like functions come from Evaluate only
-		if fn.Name() == "Search" {
-			if len(evals) != 1 {
-				r.Bad(fn.Pos(), name+" Evaluate call", fmt.Sprintf("%d calls to evaluator.Evaluate (expected exactly one)", len(evals)))
-				continue
-			}
-			ec := evals[0]
-			eres, eerr := extractOf(ec, 0), extractOf(ec, 1)
-			dataParam := fn.Params[len(fn.Params)-1]
-			if mi := ec.Call.Args[1]; mi != ssa.Value(dataParam) {
-				r.Bad(ec.Pos(), name+" Evaluate(data)", "evaluator.Evaluate does not receive the data parameter unchanged")
-			} else {
-				r.OK(ec.Pos(), name+" Evaluate(data)", "data parameter passed unchanged")
-			}
-			for i, ret := range returnsOf(fn) {
-				if !isNilConst(ret.Results[1]) {
-					if isMethod {
-						key := fmt.Sprintf("%s error-return#%d", name, i+1)
-						c, ok := ret.Results[1].(*ssa.Call)
-						if ok && calleeFullName(&c.Call) == p.Root.PkgPath+".evaluateError" && eerr != nil && c.Call.Args[0] == eerr {
-							r.OK(ret.Pos(), key, "evaluation failure routed through evaluateError")
-						} else {
-							r.Bad(ret.Pos(), key, "error is not routed through evaluateError")
-						}
-					}
-					continue
-				}
-				key := fmt.Sprintf("%s success-return#%d", name, i+1)
-				if eres != nil && ret.Results[0] == eres && eerr != nil && errEdgeDominates(ret.Block(), eerr, true) {
-					r.OK(ret.Pos(), key, "result is the value returned by evaluator.Evaluate under its nil-error edge")
-				} else {
-					r.Bad(ret.Pos(), key, "a success return yields something other than evaluator.Evaluate's result: "+ret.Results[0].String())
-				}
-			}
-			if isMethod {
-				// node argument is the receiver's node field
-				if ld, ok := ec.Call.Args[0].(*ssa.UnOp); ok {
-					if fa, ok := ld.X.(*ssa.FieldAddr); ok && fa.X == ssa.Value(fn.Params[0]) {
-						r.OK(ec.Pos(), name+" Evaluate(node)", "evaluates the receiver's compiled node")
-					} else {
-						r.Bad(ec.Pos(), name+" Evaluate(node)", "node argument is not the receiver's field")
-					}
-				} else {
-					r.Bad(ec.Pos(), name+" Evaluate(node)", "node argument is not the receiver's field")
-				}
-			}
-		}
-		if fn.Name() == "Compile" || fn.Name() == "MustCompile" {
-			pc := parses[0]
-			pnode := extractOf(pc, 0)
-			for i, ret := range returnsOf(fn) {
-				if len(ret.Results) == 2 && !isNilConst(ret.Results[1]) {
-					continue
-				}
-				key := fmt.Sprintf("%s success-return#%d", name, i+1)
-				al, ok := ret.Results[0].(*ssa.Alloc)
-				good := false
-				if ok {
-					for _, ref := range *al.Referrers() {
-						if fa, ok := ref.(*ssa.FieldAddr); ok {
-							for _, r2 := range *fa.Referrers() {
-								if st, ok := r2.(*ssa.Store); ok && st.Val == pnode {
-									good = true
-								}
-							}
-						}
-					}
-				}
-				if good {
-					r.OK(ret.Pos(), key, "returns a new Expression holding the node returned by parser.Parse")
-				} else {
-					r.Bad(ret.Pos(), key, "the returned Expression does not hold the node returned by parser.Parse")
-				}
-			}
-		}
-	}
-	// Parse has a single string parameter: it cannot see the data
-	if pf := p.SSAPkg[p.Parser].Func("Parse"); pf != nil {
-		if len(pf.Params) == 1 {
-			if b, ok := pf.Params[0].Type().Underlying().(*types.Basic); ok && b.Kind() == types.String {
-				r.OK(pf.Pos(), "parser.Parse signature", "Parse(expression string): the data cannot influence static checks")
-			} else {
-				r.Bad(pf.Pos(), "parser.Parse signature", "Parse takes a non-string parameter")
-			}
-		} else {
-			r.Bad(pf.Pos(), "parser.Parse signature", "Parse takes more than the expression text")
-		}
-	} else {
-		r.Unknown(token.NoPos, "parser.Parse signature", "parser.Parse not found")
-	}
 }
 
 // ---------------------------------------------------------------- A-PANIC
@@ -836,4 +607,170 @@ func usedAsValue(v ssa.Value) bool {
 		}
 	}
 	return false
+}
+
+// errorMappers finds the root-package functions that receive the error of parser.Parse / evaluator.Evaluate
+// (directly in an API function or in a root-package helper) and return an error.
+func errorMappers(p *Program) (parseM, evalM []*ssa.Function) {
+	seenP, seenE := map[*ssa.Function]bool{}, map[*ssa.Function]bool{}
+	parseName := p.Parser.PkgPath + ".Parse"
+	evalName := p.Eval.PkgPath + ".Evaluate"
+	for _, fn := range p.ReachFuncs(p.Root) {
+		for _, b := range fn.Blocks {
+			for _, in := range b.Instrs {
+				c, ok := in.(*ssa.Call)
+				if !ok {
+					continue
+				}
+				callee := calleeOf(&c.Call)
+				if callee == nil || p.PkgOf(callee) != p.Root {
+					continue
+				}
+				res := callee.Signature.Results()
+				if res.Len() != 1 || !isErrorType(res.At(0).Type()) {
+					continue
+				}
+				for _, a := range c.Call.Args {
+					ex, ok := a.(*ssa.Extract)
+					if !ok {
+						continue
+					}
+					src, ok := ex.Tuple.(*ssa.Call)
+					if !ok {
+						continue
+					}
+					switch calleeFullName(&src.Call) {
+					case parseName:
+						if !seenP[callee] {
+							seenP[callee] = true
+							parseM = append(parseM, callee)
+						}
+					case evalName:
+						if !seenE[callee] {
+							seenE[callee] = true
+							evalM = append(evalM, callee)
+						}
+					}
+				}
+			}
+		}
+	}
+	return
+}
+
+// simulateMapper walks the CFG of an error-mapping function for one concrete error type and returns the public type it
+// produces. Conditions understood: comma-ok assertions of the error parameter, errors.Is(err, Sentinel), errors.As into a
+// pointer of a concrete type, comparisons of the error with nil, and negations. On failure it returns the position.
+func simulateMapper(fn *ssa.Function, concrete string, internalIs map[string][]string) (string, bool) {
+	var errParam *ssa.Parameter
+	for _, prm := range fn.Params {
+		if isErrorType(prm.Type()) {
+			errParam = prm
+		}
+	}
+	if errParam == nil {
+		return "no error parameter", false
+	}
+	isErr := func(v ssa.Value) bool {
+		for i := 0; i < 4; i++ {
+			if v == ssa.Value(errParam) {
+				return true
+			}
+			switch x := v.(type) {
+			case *ssa.ChangeInterface:
+				v = x.X
+			case *ssa.MakeInterface:
+				v = x.X
+			default:
+				return false
+			}
+		}
+		return false
+	}
+	var evalCond func(v ssa.Value) (bool, bool)
+	evalCond = func(v ssa.Value) (bool, bool) {
+		switch x := v.(type) {
+		case *ssa.UnOp:
+			if x.Op == token.NOT {
+				t, ok := evalCond(x.X)
+				return !t, ok
+			}
+		case *ssa.Extract:
+			if ta, ok := x.Tuple.(*ssa.TypeAssert); ok && x.Index == 1 && isErr(ta.X) {
+				return typeShort(ta.AssertedType) == concrete, true
+			}
+		case *ssa.Call:
+			n := calleeFullName(&x.Call)
+			if n == "errors.Is" && len(x.Call.Args) == 2 && isErr(x.Call.Args[0]) {
+				if ld, ok := x.Call.Args[1].(*ssa.UnOp); ok {
+					if g, ok := ld.X.(*ssa.Global); ok && g.Pkg != nil {
+						sent := g.Pkg.Pkg.Name() + "." + g.Name()
+						if concrete == sent {
+							return true, true
+						}
+						for _, m := range internalIs[concrete] {
+							if m == sent || m == "?" {
+								return true, true
+							}
+						}
+						return false, true
+					}
+				}
+			}
+			if n == "errors.As" && len(x.Call.Args) == 2 && isErr(x.Call.Args[0]) {
+				if mi, ok := x.Call.Args[1].(*ssa.MakeInterface); ok {
+					if pt, ok := mi.X.Type().Underlying().(*types.Pointer); ok {
+						return typeShort(pt.Elem()) == concrete, true
+					}
+				}
+			}
+		case *ssa.BinOp:
+			if (x.Op == token.EQL || x.Op == token.NEQ) && (isErr(x.X) && isNilConst(x.Y) || isErr(x.Y) && isNilConst(x.X)) {
+				return x.Op == token.NEQ, true
+			}
+		case *ssa.Const:
+			if x.Value != nil {
+				return x.Value.String() == "true", true
+			}
+		}
+		return false, false
+	}
+	b := fn.Blocks[0]
+	for steps := 0; steps < 200; steps++ {
+		if len(b.Instrs) == 0 {
+			return "empty block", false
+		}
+		switch t := b.Instrs[len(b.Instrs)-1].(type) {
+		case *ssa.Return:
+			if len(t.Results) != 1 {
+				return "return arity", false
+			}
+			switch rv := t.Results[0].(type) {
+			case *ssa.MakeInterface:
+				return strings.TrimPrefix(typeShort(rv.X.Type()), "*jmespath."), true
+			case *ssa.Phi:
+				return "merged return value", false
+			default:
+				if isErr(rv) {
+					return "<the internal error itself>", true
+				}
+				return rv.String(), false
+			}
+		case *ssa.If:
+			tv, ok := evalCond(t.Cond)
+			if !ok {
+				return fn.Prog.Fset.Position(instrPos(t)).String(), false
+			}
+			if tv {
+				b = b.Succs[0]
+			} else {
+				b = b.Succs[1]
+			}
+		case *ssa.Jump:
+			b = b.Succs[0]
+		default:
+			return "unexpected terminator", false
+		}
+	}
+	return "too many steps", false
 }
